@@ -2,3 +2,26 @@
 
 // Trusted library contracts (standard library functions called by functions under contract).
 package lib
+
+//@ lib func slices.Contains(s []rune, v rune) (r bool)
+//@   pure
+//@   ensures r == (exists q int :: 0 <= q && q < len(s) && s[q] == v)
+
+//@ lib func slices.Index(s []rune, v rune) (r int)
+//@   pure
+//@   ensures -1 <= r && r < len(s)
+//@   ensures r >= 0 ==> s[r] == v
+//@   ensures forall p int :: 0 <= p && p < len(s) && (r < 0 || p < r) ==> s[p] != v
+
+//@ lib func unicode.ToLower(r rune) (l rune)
+//@   pure
+//@ lib func unicode.ToUpper(r rune) (l rune)
+//@   pure
+//@ lib func unicode.IsSpace(r rune) (b bool)
+//@   pure
+//@ lib func unicode.IsPrint(r rune) (b bool)
+//@   pure
+//@ lib func unicode.IsDigit(r rune) (b bool)
+//@   pure
+//@ lib func unicode.IsLetter(r rune) (b bool)
+//@   pure
